@@ -115,7 +115,8 @@ CONFIG = dict(
     assumptions=[
         "one read-loop goroutine per federation client; the local client's actions are interleaved only between frames "
         "(lock-order inversions between the read loop and other goroutines are outside the model)",
-        "a scheduled reconnect happens and succeeds before the next frame (timers are not modelled as time)",
+        "a scheduled reconnect happens and succeeds before the next frame unless the remote server is down "
+        "('drop hold' … 'up': every attempt fails and re-arms the timer); timers are not modelled as time",
         "the local client stays connected (pending-message storage of a disconnected session is not modelled)",
     ],
 )
@@ -134,7 +135,8 @@ MANIFEST = dict(
          "the real FederationClient of a real Hub, with connection faults at every point of the handshake / resume path.",
     note="Three defects confirmed and fixed (nil dereferences on malformed messages; self-deadlock of the read loop on a "
          "failed hello/room/bye write stalling the hub's housekeeping; nil connection after a failed bye). Trusted: JSON "
-         "decoders, websocket library, harness. Not modelled: lock-order inversions with other goroutines, timers as time.",
+         "decoders, websocket library, harness. Not modelled: lock-order inversions with other goroutines, timers as time. "
+         "Loops are judged by shape (range vs. for), not by a termination proof of the Go code.",
     technique="Lean 4 proof (case analysis over a total shape model with explicit crash/deadlock outcomes, defined over "
               "regenerated validation tables) + go/ast dereference analysis + differential correspondence against a hostile peer",
 )
